@@ -50,6 +50,8 @@ func runSmall(c *core.Ctx) []core.Obligation {
 	smallMarshalerOutputCompacted(c, b)
 	smallTimeCanFail(c, b)
 	smallThriftFlagMask(c, b)
+	smallProtoEmptyMap(c, b)
+	smallThriftMismatchConsumes(c, b)
 	smallStringOptionNull(c, b)
 	smallStringOptionMarshaler(c, b)
 	return b.out
@@ -968,6 +970,167 @@ func smallRawVarintByte(c *core.Ctx, b *ob) {
 	}
 	if n == 0 {
 		b.addP(props, core.Discharged, "raw-varint-byte:none", "proto", "no integer is written as a raw byte outside encodeVarint: every length and tag goes through the varint encoder")
+	}
+}
+
+// S26 — thrift, non-strict mode: a value whose wire type is not the one the target expects is
+// ignored. Ignoring it means consuming it: the decoders read from a stream, and returning without
+// reading the value leaves its bytes to be taken for the next field header — the rest of the
+// struct is garbage (silently, with Decoder.Decode). Every return on the "mismatch and not strict"
+// path must come after a call that skips the value (skip, skipField, or a loop of them).
+func smallThriftMismatchConsumes(c *core.Ctx, b *ob) {
+	props := []string{"C08", "C04"}
+	strictV, ok := thriftConst(c, "strict")
+	if !ok {
+		b.addP(props, core.Undecided, "thrift:mismatch-consumed", "-", "thrift.strict not found")
+		return
+	}
+	n := 0
+	fns := c.RepoFunctions()
+	sort.Slice(fns, func(i, j int) bool { return shortName(fns[i]) < shortName(fns[j]) })
+	for _, fn := range fns {
+		name := shortName(fn)
+		if fn.Blocks == nil || !strings.HasPrefix(name, "thrift.") {
+			continue
+		}
+		count := 0
+		for _, blk := range fn.Blocks {
+			ifi, isIf := blk.Instrs[len(blk.Instrs)-1].(*ssa.If)
+			if !isIf {
+				continue
+			}
+			call, isCall := ifi.Cond.(*ssa.Call)
+			if !isCall {
+				continue
+			}
+			f := staticCallee(call.Common())
+			if f == nil || f.Name() != "have" || len(call.Call.Args) != 2 {
+				continue
+			}
+			if k, isK := constInt(call.Call.Args[1]); !isK || k != strictV {
+				continue
+			}
+			// the strict branch builds a TypeMismatch
+			mismatch := false
+			for _, in := range blk.Succs[0].Instrs {
+				if al, isAlloc := in.(*ssa.Alloc); isAlloc && strings.HasSuffix(al.Type().String(), "TypeMismatch") {
+					mismatch = true
+				}
+			}
+			if !mismatch {
+				continue
+			}
+			n++
+			count++
+			key := fmt.Sprintf("thrift:mismatch-consumed:%s#%d", closureIndex.ReplaceAllString(name, ""), count)
+			// the non-strict branch: every return reachable before rejoining must follow a skip
+			arm := blk.Succs[1]
+			skips := false
+			seen := map[*ssa.BasicBlock]bool{}
+			var walk func(x *ssa.BasicBlock)
+			bad := ""
+			walk = func(x *ssa.BasicBlock) {
+				if seen[x] || len(seen) > 12 {
+					return
+				}
+				seen[x] = true
+				for _, ci := range callsIn2(x) {
+					if g := staticCallee(ci.Common()); g != nil && strings.HasPrefix(g.Name(), "skip") {
+						skips = true
+					}
+				}
+				if r, isRet := x.Instrs[len(x.Instrs)-1].(*ssa.Return); isRet {
+					if !skips {
+						bad = c.InstrPos(r)
+					}
+					return
+				}
+				for _, sc := range x.Succs {
+					walk(sc)
+				}
+			}
+			walk(arm)
+			if bad != "" {
+				b.addP(props, core.Violation, key, bad, name+": when the wire type differs from the target's and strict mode is off, the decoder returns without consuming the value: its bytes are then read as the next field header, and the rest of the struct is decoded from garbage (or lost) although the input is well formed")
+			} else {
+				b.addP(props, core.Discharged, key, c.InstrPos(ifi), "the mismatched value is skipped before returning")
+			}
+		}
+	}
+	if n == 0 {
+		b.addP(props, core.Undecided, "thrift:mismatch-consumed", "-", "no strict/TypeMismatch branch found in thrift's decoders")
+	}
+}
+
+// S25 — protobuf has no representation of "an empty map": a map field with no entries contributes
+// no bytes, and an entry whose payload is empty (tag, length 0) is the entry {default key: default
+// value}. proto's map codec must therefore size an empty map at 0 and must decode an empty entry
+// like any other.
+func smallProtoEmptyMap(c *core.Ctx, b *ob) {
+	props := []string{"C12"}
+	// writer: the size closure returns the accumulated n; n must not be replaced by a non-zero
+	// constant when it is zero
+	key := "proto-map:empty-map-has-no-bytes"
+	if fn := c.Lookup("proto.mapSizeFuncOf$1"); fn != nil {
+		bad := ""
+		for _, blk := range fn.Blocks {
+			ifi, ok := blk.Instrs[len(blk.Instrs)-1].(*ssa.If)
+			if !ok {
+				continue
+			}
+			bo, ok := ifi.Cond.(*ssa.BinOp)
+			if !ok || bo.Op != token.EQL {
+				continue
+			}
+			if k, isK := constInt(bo.Y); !isK || k != 0 {
+				continue
+			}
+			if _, isPhi := bo.X.(*ssa.Phi); !isPhi {
+				continue
+			}
+			// the true edge leads to a return of something else than the accumulator
+			for _, r := range returnsOf(fn) {
+				if len(r.Results) != 1 {
+					continue
+				}
+				if phi, isPhi := r.Results[0].(*ssa.Phi); isPhi {
+					for i, e := range phi.Edges {
+						if e != bo.X && phi.Block().Preds[i] == blk.Succs[0] {
+							bad = c.InstrPos(ifi)
+						}
+					}
+				}
+			}
+		}
+		if bad != "" {
+			b.addP(props, core.Violation, key, bad, "proto.mapSizeFuncOf: a map without entries is given the size of a tag and an empty payload instead of 0, and the encoder writes that entry: struct{A int; M map[int]int}{A: 1} marshals to 08 01 12 00, which every other protobuf implementation decodes as M = {0: 0}")
+		} else {
+			b.addP(props, core.Discharged, key, c.FuncPos(fn), "an empty map contributes no bytes")
+		}
+	} else {
+		b.addP(props, core.Undecided, key, "-", "proto.mapSizeFuncOf$1 not found")
+	}
+	// reader: no success return before an entry has been decoded
+	key2 := "proto-map:empty-entry-is-an-entry"
+	if fn := c.Lookup("proto.mapDecodeFuncOf$1"); fn != nil {
+		bad := ""
+		in := fn.Params[0]
+		for _, r := range returnsOf(fn) {
+			if len(r.Results) != 2 || !isNilConst(r.Results[1]) {
+				continue
+			}
+			_, hi, _ := lenInterval(in, r.Block())
+			if hi != nil && hi.Sign() == 0 {
+				bad = c.InstrPos(r)
+			}
+		}
+		if bad != "" {
+			b.addP(props, core.Violation, key2, bad, "proto.mapDecodeFuncOf returns without adding an entry when the entry's payload is empty: the legal encoding 12 00 of the entry {0: 0} (both defaults elided, as the reference implementation writes it) decodes to an empty map")
+		} else {
+			b.addP(props, core.Discharged, key2, c.FuncPos(fn), "an empty payload is decoded like any other entry")
+		}
+	} else {
+		b.addP(props, core.Undecided, key2, "-", "proto.mapDecodeFuncOf$1 not found")
 	}
 }
 
